@@ -18,8 +18,14 @@ def sh(cmd, cwd=wt, timeout=900):
     meta["ran"].append({"cmd": cmd, "rc": r.returncode, "tail": (r.stdout + r.stderr)[-600:]})
     return r
 try:
-    subprocess.check_call(["git", "-C", "/repo", "worktree", "add", "-q", "--detach", wt])
     patch = os.path.join(seed, "patch.diff")
+    # a change is evaluated on the tree it was written against when a later repair of /repo has
+    # rewritten the lines it touches (SEED_BASE, recorded as applies_to_repo_commit)
+    base = "HEAD"
+    if subprocess.run(["git", "-C", "/repo", "apply", "--check", patch], capture_output=True).returncode != 0 and os.environ.get("SEED_BASE"):
+        base = os.environ["SEED_BASE"]
+        meta["applies_to_repo_commit"] = base
+    subprocess.check_call(["git", "-C", "/repo", "worktree", "add", "-q", "--detach", wt, base])
     # (c) demonstration on the unmodified tree
     shutil.copy(os.path.join(seed, demo_src), os.path.join(wt, demo_dst))
     r = sh("timeout 300 go test -vet=off -count=1 " + " ".join(demo_args))
